@@ -24,8 +24,10 @@ Inductive reason :=
 Definition scope_leaf (ctx : list frame) (l : leaf) : list reason :=
   match l with
   | LBreak O | LContinue O => [RZero]
-  | LBreak (S k) => if Nat.ltb k (length ctx) then [] else [RStray]
+  (* counts beyond 127 do not fit brush's [i8] argument: also counted as out of range *)
+  | LBreak (S k) => if Nat.ltb k (length ctx) && Nat.ltb k 127 then [] else [RStray]
   | LContinue (S k) =>
+      if negb (Nat.ltb k 127) then [RStray] else
       match nth_error ctx k with
       | None => [RStray]
       | Some FCond => [RContCond]
